@@ -241,6 +241,52 @@ class strict_result_independent_of_now:
 CONTRACTS = [check_strict_parsing, strictness_only_filters, strict_result_independent_of_now]
 
 
+class strict_needs_three_tokens:
+    """a string with fewer than three date tokens cannot state day, month and year: under
+    STRICT_PARSING it is always rejected, whatever the digits (including 00) and the reference time."""
+
+    name = "parser._parser.parse/strict-rejects-fewer-than-three-parts"
+    func = "dateparser.parser._parser.parse"
+    props = ["C10"]
+
+    TWO = {
+        "nn-yyyy": [("A", 2), " ", ("Y", 4)], "yyyy-nn": [("Y", 4), " ", ("A", 2)],
+        "nn-nn": [("A", 2), " ", ("B", 2)], "nn": [("A", 2)], "n-yyyy": [("A", 1), " ", ("Y", 4)],
+        "nn-month-yyyy?": [("A", 2), " march"], "nn-yyyy-time": [("A", 2), " ", ("Y", 4), " ", ("H", 2),
+                                                               ":", ("T", 2)],
+        "nn/yyyy": [("A", 2), "/", ("Y", 4)], "month-nn": ["march ", ("A", 2)],
+    }
+
+    @classmethod
+    def cases(cls, thorough=False):
+        out = []
+        for fam in cls.TWO:
+            for order in (("MDY", "YMD", "DMY") if thorough else ("MDY", "YMD")):
+                for req in ([], ["day", "month", "year"]):
+                    out.append(dict(family=fam, DATE_ORDER=order, REQUIRE_PARTS=req))
+        return out
+
+    @staticmethod
+    def setup(inp, case):
+        from dateparser.parser import _parser
+        from pyvc.harness import build, make_settings
+
+        now = inp.datetime("now")
+        inp.assume(And(now.year >= 10, now.year <= 9990))
+        kw = dict(RELATIVE_BASE=now, TIMEZONE="UTC", DATE_ORDER=case["DATE_ORDER"])
+        if case["REQUIRE_PARTS"]:
+            kw["REQUIRE_PARTS"] = list(case["REQUIRE_PARTS"])
+        else:
+            kw["STRICT_PARSING"] = True
+        st = make_settings(**kw)
+        s, f = build(inp, strict_needs_three_tokens.TWO[case["family"]])
+        return _parser.parse, (s, st), {}, {}
+
+    @staticmethod
+    def post(case, g, out):
+        return {"always-rejected-with-ValueError": out.raised(ValueError)}
+
+
 class api_level_strictness:
     """C10 at the API: strictness must only filter, also through the custom-format parser and
     across languages.  Concrete inputs (the first design's composition counterexamples); all-concrete
@@ -302,4 +348,4 @@ class api_level_strictness:
         }
 
 
-CONTRACTS += [api_level_strictness]
+CONTRACTS += [strict_needs_three_tokens, api_level_strictness]
